@@ -17,6 +17,7 @@ func init() {
 			"no Delete outside the selection predicate's verdict in drop/keep; no strconv.Unquote (raw-string templates keep \r); __error__ first-wins guard of SetError",
 			"PV-PAIR groupEntries: the stream key is LabelSet.String() (injective, order-independent), so entries with different rewritten label sets never share a stream; rename deletes the source in the iteration that read it",
 			"PV-API label regexps are compiled anchored; CH-MAP string matcher table (=~ is a regexp match, case flags included)",
+			"LP-PIPE BuildPipeline: one processor per stage, in order (no reordering of filters across rewriting stages)",
 		},
 		NotDecided: []string{"what text/template and sprig functions compute", "whether ansiPattern matches exactly the ANSI colour sequences (regexp semantics)"},
 		Rules: func(r *Run) {
@@ -44,6 +45,7 @@ func init() {
 			ruleLabelSetString(r)
 			ruleLabelRegexAnchoring(r)
 			ruleCHBuilders(r) // the value matchers of drop/keep implement their operator
+			ruleLPPipe(r)     // the stages run in the order they were written
 		},
 	})
 }
